@@ -117,11 +117,19 @@ class GrammarSemantics(ModelBuilderSemantics):
     def hex(self, ast):
         return int(ast, 16)
 
+    @staticmethod
+    def _convert_number(convert, ast):
+        try:
+            return convert(ast)
+        except (ValueError, SyntaxError) as e:
+            # e.g. more digits than Python converts to an int
+            raise FailedSemantics(f'invalid number: {e}') from e
+
     def float(self, ast):
-        return float(ast)
+        return self._convert_number(float, ast)
 
     def int(self, ast):
-        return int(ast)
+        return self._convert_number(int, ast)
 
     def none(self, _ast):
         return None
@@ -144,7 +152,7 @@ class GrammarSemantics(ModelBuilderSemantics):
     # JSON
     def number(self, ast):
         if isinstance(ast, str):
-            return literal_eval(ast)
+            return self._convert_number(literal_eval, ast)
         return ast
 
     def cut_deprecated(self, _ast):
